@@ -180,6 +180,6 @@ func c11Offsets(c *core.Check) {
 	}
 }
 
-var regRe = regexp.MustCompile(`/t[0-9]+`)
+var regRe = regexp.MustCompile(`/(t[0-9]+|0x[0-9a-f]+)`)
 
 func stripRegs(s string) string { return regRe.ReplaceAllString(s, "") }
